@@ -50,6 +50,29 @@ def random_basis_change(gens, rng, steps=None):
     return gens
 
 
+def extreme_weight_basis(gens, n, rng, heavy=True):
+    """generating set of the same group made of its heaviest (heavy=True: e.g. every generator acting on every qubit, where the group
+    has n independent such elements) or lightest elements: matroid greedy over all 2^n - 1 non-identity group elements"""
+    elems = [(0, 0, 0)]
+    for g in gens:
+        elems += [pauli.mul(e, g) for e in elems]
+    elems = [e for e in elems if e[1] | e[2]]
+    rng.shuffle(elems)
+    elems.sort(key=lambda e: bin(e[1] | e[2]).count("1"), reverse=heavy)
+    basis, red = [], []          # red: reduced (x|z<<n) vectors with their pivot bit
+    for e in elems:
+        v = e[1] | (e[2] << n)
+        for (p, r) in red:
+            if v >> p & 1:
+                v ^= r
+        if v:
+            red.append((v.bit_length() - 1, v))
+            basis.append(e)
+            if len(basis) == len(gens):
+                break
+    return basis
+
+
 def apply_signs(gens, signs):
     return [(g[0] ^ ((signs >> i) & 1), g[1], g[2]) for i, g in enumerate(gens)]
 
@@ -63,6 +86,8 @@ def member(n, orbit_gid, rng, signs="random", mix=True, local=True):
     if mix == "light":      # one or two products of generators (e.g. a generator of one tensor factor multiplied onto another's), reordered
         gens = random_basis_change(gens, rng, steps=rng.choice([1, 2, 2, 3]))
         rng.shuffle(gens)
+    elif mix == "heavy":    # the heaviest group elements as generators (all of full weight where the group allows it)
+        gens = extreme_weight_basis(gens, n, rng, heavy=True)
     elif mix:
         gens = random_basis_change(gens, rng)
     if signs == "random":
